@@ -121,3 +121,10 @@ package v1alpha1
 // only used to pick the event type; no claim beyond termination-free looping over the package-level list
 //@ func JobResult.IsFailed
 //@   loop 1 invariant -1 <= rangeindex
+
+// ScheduleSpec.DeepCopy (generated): a fresh copy
+//@ extern func ScheduleSpec.DeepCopy
+//@   params in
+//@   fresh result
+//@   ensures (in == nil) == (result == nil)
+//@   ensures in != nil ==> result.Disabled == in.Disabled && optNs(result.LastUpdated) == optNs(in.LastUpdated)
